@@ -552,7 +552,7 @@ def _fn_table_enum_to_bool_syntactic(ctx, b):
     return tab
 
 
-@rule('CD4', ['C07'], floor=4, template='finite-tables')
+@rule('CD4', ['C07', 'C08'], floor=4, template='finite-tables')
 def cd4(ctx):
     """Frame-type and record-type tables are mutually consistent."""
     FT = 'frame::header::FrameType'
@@ -1066,7 +1066,7 @@ def appended_content_params(b):
     return content_params
 
 
-@rule('CD8', ['C07', 'C01'], floor=3, template='must-flow')
+@rule('CD8', ['C07', 'C01', 'C12'], floor=3, template='must-flow')
 def cd8(ctx):
     """Every input of an encoder reaches the output buffer; the payload of a frame reaches the block writer."""
     n = 0
@@ -1087,6 +1087,28 @@ def cd8(ctx):
             if al is not None and b.local_ty(al).startswith('&mut std::vec::Vec<u8>') and re.search(r'Vec::<u8>::(push|extend_from_slice|extend|append|insert|resize)$|Extend<.*>>::extend', cs.name):
                 for a in cs.args[1:]:
                     sink_nodes |= fl.backward(set(fl.op_nodes(a)), skip_mem=True)
+        # a batch encoder gives EVERY item its header: from one `next()` of the item iterator the loop cannot come round to
+        # the following one without having appended an integer field (position / length) -- an "empty payload, nothing
+        # to copy" early exit drops the item, header included, and the batch is logged with a hole
+        nexts = [cs for cs in b.calls if cs.name.endswith('as std::iter::Iterator>::next') and cs.dest_local() is not None]
+        if nexts:
+            ints = [c for (_t, _e, c) in int_codec_calls(b, 'to')]
+            t_int = set()
+            for c in ints:
+                t_int |= fl.forward(set(fl.call_result_nodes(c)))
+            hdr_sinks = [cs.point for cs in b.calls if cs.arg_local(0) is not None and b.local_ty(cs.arg_local(0)).startswith('&mut std::vec::Vec<u8>')
+                         and re.search(r'Vec::<u8>::(push|extend_from_slice|extend|append)$|Extend<.*>>::extend', cs.name) and any(fl.op_tainted(a, t_int) for a in cs.args[1:])]
+            for kx, nx in enumerate(nexts):
+                none_edges = [edges['None'] for (bi_, pl_, adt_, edges) in b.discr_switches() if pl_['l'] == nx.dest_local() and not pl_['p'] and 'None' in edges]
+                if not hdr_sinks:
+                    continue
+                r_ = b.reach_after(nx.point, avoid=hdr_sinks, avoid_edges=none_edges)
+                if nx.point not in b.reach_after(nx.point):
+                    continue        # not in a loop
+                n += 1
+                ctx.check(nx.point not in r_, '%s:every-item-gets-its-header#%d' % (b.path, kx + 1), where(b, nx.point), 'every item the iterator yields is given its header before the next one is fetched',
+                          'the batch encoder can go on to the next item without having appended the header of the current one (an early exit for some items): the batch would be logged, and recovered, with a hole',
+                          detail={'path': b.witness(nx.point, nx.point, avoid=hdr_sinks, avoid_edges=none_edges)} if nx.point in r_ else None)
         content_params = appended_content_params(b)
         # Buf-typed payloads (no slice parameter to root at): the bytes handed out by Buf::chunk are what must be appended
         chunk_calls = [cs for cs in b.calls if method_name(cs.name) == 'chunk' and 'Buf' in cs.name]
@@ -1340,7 +1362,7 @@ def encoder_fills(ctx, b, ident, memo, depth=0):
     return out
 
 
-@rule('CD11', ['C01', 'C07'], floor=2, template='reset-dominates-fill')
+@rule('CD11', ['C01', 'C07', 'C13'], floor=2, template='reset-dominates-fill')
 def cd11(ctx):
     """A reused scratch buffer is emptied before an entry is encoded into it: on every path from taking the
     long-lived buffer (a struct field, mem::take of one) to the first byte appended there is a clear()."""
